@@ -1,6 +1,6 @@
 """C05 - evicting nodes never changes behaviour: pin typestate on all 22 TUs."""
 from .. import engine
-from ..rules import pins
+from ..rules import pins, pyalias
 
 
 def tu_check(tu):
@@ -9,7 +9,7 @@ def tu_check(tu):
 
 def run(tier="quick", seed=0, use_cache=True):
     res = engine.Result("C05")
-    res.rules = ["PIN-LEAK", "GHOST-READ", "PIN-OWNER"]
+    res.rules = ["PIN-LEAK", "GHOST-READ", "PIN-OWNER", "PY-STALE-ALIAS"]
     res.explanation = (
         "Typestate analysis of the activate/pin/release protocol over the "
         "type-checked clang AST of all 22 extension translation units: every "
@@ -20,7 +20,11 @@ def run(tier="quick", seed=0, use_cache=True):
         "PIN-OWNER: no release of a pin the frame does not hold. Persistence "
         "events are recognised from the expanded code (state field tests/"
         "stores and cPersistenceCAPI calls), so the macro definitions are "
-        "themselves under analysis.")
+        "themselves under analysis. PY-STALE-ALIAS (Python implementation, "
+        "which has no pin): no write through a local copy of a node's state "
+        "list (_keys/_values/_data) that was bound before a call into the "
+        "comparing layer - a cache sweep during a key comparison reloads the "
+        "node into new lists and the write would go to the discarded one.")
     res.assumptions = [
         "cPersistenceCAPI->setstate/accessed/changed behave as documented in persistent's cPersistence.h",
         "lifecycle slots (dealloc/tp_clear/traverse/_p_deactivate) work on raw memory behind an explicit ghost-state test (the test is required)",
@@ -44,6 +48,7 @@ def run(tier="quick", seed=0, use_cache=True):
     res.count("PIN-LEAK", tot.get("acq", 0) + tot.get("pin", 0))
     res.count("PIN-OWNER", tot.get("rel", 0))
     res.count("GHOST-READ", tot.get("touches", 0))
+    pyalias.check(res)
     res.extra["returns_checked"] = tot.get("returns", 0)
     res.extra["needs_pinned_summaries_OO"] = oo.get("needs", {})
     res.samples = [
